@@ -45,10 +45,45 @@ def _run_battery():
     return _cache['res']
 
 
+def _run_valve_scenarios():
+    """loopback scenarios of replay_tests/ (scripted UDP server on 127.0.0.1, the real valve::query as the client): split header
+    with total = 0, and a three-fragment A2S_INFO reply in all six arrival orders"""
+    if 'valve' in _cache:
+        return _cache['valve']
+    d = os.path.join(SCRATCH_ROOT, f'verif-replayv-{os.getpid()}')
+    shutil.rmtree(d, ignore_errors=True)
+    os.makedirs(d)
+    res = []
+    try:
+        subprocess.run(['rsync', '-a', '--exclude', 'target', '--exclude', '.git', REPO.rstrip('/') + '/', d + '/'], check=True)
+        names = ['d4_valve_total_zero', 'd5_valve_fragment_order']
+        for n in names:
+            shutil.copy(os.path.join(VERIF, 'replay_tests', n + '.rs'), os.path.join(d, 'crates/lib/tests', n + '.rs'))
+        env = dict(os.environ, CARGO_NET_OFFLINE='true')
+        cmd = ['cargo', 'test', '--offline', '-p', 'gamedig'] + sum([['--test', n] for n in names], []) + ['--no-fail-fast']
+        p = subprocess.run(cmd, cwd=d, env=env, capture_output=True, text=True, timeout=1500)
+        out = p.stdout + p.stderr
+        for mm in re.finditer(r"thread '([\w:]+)'[^\n]* panicked at ([^\n]*)\n([^\n]*)", out):
+            res.append((mm.group(1), (mm.group(2) + ' ' + mm.group(3))[:400]))
+    except Exception as e:
+        res = []
+    finally:
+        shutil.rmtree(d, ignore_errors=True)
+    _cache['valve'] = res
+    return res
+
+
 def search(prop, v, tier):
     if v.get('engine') != 'verus':
         return None
     fn = v.get('fn') or ''
+    if fn.startswith('crates/lib/src/protocols/valve/protocol.rs') and any(w in fn for w in ('receive', 'SplitPacket')):
+        fails = _run_valve_scenarios()
+        if fails:
+            return {'input': {'scenario': fails[0][0], 'source': 'replay_tests/d4_valve_total_zero.rs, replay_tests/d5_valve_fragment_order.rs (scripted UDP server on 127.0.0.1)'},
+                    'observed': fails[0][1], 'test': 'replay_tests/*.rs run as integration tests in a scratch copy',
+                    'all_failing_inputs': [{'scenario': a, 'observed': o} for (a, o) in fails]}
+        return None
     if not any(fn.startswith(f) for f in FILES):
         return None
     fails, done, tail = _run_battery()
